@@ -84,10 +84,11 @@ func buildConc(seed int64, kind string, prog [][]string) [][]concOp {
 	concPrelude = nil
 	fail := func(err error) []byte { return []byte("error: " + err.Error()) }
 	switch kind {
-	case "t1issuer", "t5issuer", "t1odd":
+	case "t1issuer", "t5issuer", "t1odd", "t1warm":
 		// "t1odd": the same programs with requests whose element comes in ANOTHER form (uncompressed SEC1): the issuer
 		// refuses them - or, should it ever accept them, handles them like the others - without sharing anything
-		t1 := kind == "t1issuer" || kind == "t1odd"
+		// "t1warm": the caller has already used the key object (published its public key) before building the issuer
+		t1 := kind == "t1issuer" || kind == "t1odd" || kind == "t1warm"
 		var key *oprf.PrivateKey
 		if t1 {
 			key = freshVoprf(oprf.SuiteP384, p384Key(seed, "k1"))
@@ -104,6 +105,10 @@ func buildConc(seed int64, kind string, prog [][]string) [][]concOp {
 		pkBytes, _ := pubSide.Public().MarshalBinary()
 		var iss1 *type1.BasicPrivateIssuer
 		var iss5 *type5.BatchedPrivateIssuer
+		if kind == "t1warm" {
+			key.Public()
+			type1.NewBasicPrivateIssuer(key) // (and built another issuer from the same key object before)
+		}
 		if t1 {
 			iss1 = type1.NewBasicPrivateIssuer(key)
 		} else {
@@ -325,7 +330,7 @@ func buildConc(seed int64, kind string, prog [][]string) [][]concOp {
 				ops[g] = append(ops[g], op)
 			}
 		}
-	case "batch":
+	case "batch", "batchcollide":
 		// two type-1 issuers with different truncated key ids and one type-2 issuer; requests alternate between the type-1 keys
 		mkKey := func(name string) (*oprf.PrivateKey, *oprf.PrivateKey, []byte) {
 			k := freshVoprf(oprf.SuiteP384, p384Key(seed, name))
@@ -335,8 +340,17 @@ func buildConc(seed int64, kind string, prog [][]string) [][]concOp {
 		}
 		kA, sideA, idA := mkKey("k1")
 		kB, sideB, idB := mkKey("k2")
-		for n := 0; idB[31] == idA[31]; n++ {
-			kB, sideB, idB = mkKey(fmt.Sprintf("k2-%d", n))
+		if kind == "batchcollide" {
+			// two type-1 issuers whose key ids END IN THE SAME BYTE: the first configured one answers - whichever
+			// goroutine is faster (requests made for B are answered by A and refused by the client: part of the result)
+			ck := collidingP384Key(seed, idA[31])
+			kB, sideB = freshVoprf(oprf.SuiteP384, ck), freshVoprf(oprf.SuiteP384, ck)
+			b, _ := sideB.Public().MarshalBinary()
+			idB = sha256Sum(b)
+		} else {
+			for n := 0; idB[31] == idA[31]; n++ {
+				kB, sideB, idB = mkKey(fmt.Sprintf("k2-%d", n))
+			}
 		}
 		i2 := type2.NewBasicPublicIssuer(rsaKey(0))
 		iss := batched.NewBasicBatchedIssuer(batchIssuer1{type1.NewBasicPrivateIssuer(kA)}, batchIssuer1{type1.NewBasicPrivateIssuer(kB)}, batchIssuer2{i2})
